@@ -40,15 +40,6 @@ theorem c03_t_DocPos_Unpack (pos : Nat) (h1 : 1 ≤ pos) (h2 : pos < 18446744073
   · unfold wrapU32; omega
   · omega
 
-/-- the lists of a `lids.Table` as the translated functions see them -/
-def ints (xs : List Nat) : List Int := xs.map Int.ofNat
-
-theorem getD_of_lt {α : Type} (xs : List α) (i : Nat) (d : α) (h : i < xs.length) : xs.getD i d = xs[i] := by
-  simp [List.getD_eq_getElem?_getD, h]
-
-theorem idx_ints (xs : List Nat) (i : Nat) (h : i < xs.length) : idx (ints xs) (i : Int) = some (xs[i] : Int) := by
-  unfold ints; rw [idx_natCast]; simp [h]
-
 /-- `Table.GetAdjustedMinTID` inside the table (`i` a valid block index, TIDs are uint32, a continued block
 does not start at TID 0 - TIDs start at 1) -/
 theorem c03_t_GetAdjustedMinTID (t : Table) (i : Nat) (hi : i < t.minTIDs.length) (hc : i < t.isContinued.length)
@@ -101,7 +92,7 @@ theorem c03_t_HasTIDInNextBlock (t : Table) (bi tid : Nat) (hb : bi < t.minTIDs.
     (h0 : t.isContinued.getD (bi + 1) false = true → 1 ≤ t.minTIDs.getD (bi + 1) 0) :
     T.Table_HasTIDInNextBlock (ints t.minTIDs) t.isContinued bi tid = some (t.hasNext bi tid) := by
   unfold T.Table_HasTIDInNextBlock Table.hasNext
-  have hl : len (ints t.minTIDs) = (t.minTIDs.length : Int) := by simp [len, ints]
+  have hl := len_ints t.minTIDs
   have hw : wrapI64 ((t.minTIDs.length : Int) - 1) = ((t.minTIDs.length - 1 : Nat) : Int) := by unfold wrapI64; omega
   rw [hl, hw]
   by_cases h : t.minTIDs.length - 1 = bi
